@@ -526,6 +526,8 @@ def gen_ops(rng, cols, types, rows, n):
                 for k in (orc.idx or orc.cols[:1]):
                     r2[orc.cols.index(k)] = q[orc.cols.index(k)]
                 r = r2
+            if len(recent) >= 2 and len(recent[0]) == len(types) and rng.random() < 0.3:
+                r = list(rng.choice(recent[:-1]))      # value for value an earlier row again (A, B, A)
             op = ("insert", r)
             recent = (recent + [r])[-3:]
         elif x < 0.42:
@@ -536,6 +538,10 @@ def gen_ops(rng, cols, types, rows, n):
             if k >= 2 and rng.random() < 0.4:
                 for c in (orc.idx or orc.cols[:1]):
                     rs[-1][orc.cols.index(c)] = rs[0][orc.cols.index(c)]
+                if k >= 3 and rng.random() < 0.5:          # A, B, A inside one batch
+                    for c in (orc.idx or orc.cols[:1]):
+                        rs[1][orc.cols.index(c)] = rs[0][orc.cols.index(c)]
+                    rs[-1] = list(rs[0])
             op = ("insertb", rs)
             recent = (recent + rs)[-3:]
         elif x < 0.54:
@@ -672,6 +678,31 @@ def threshold_histories(rng, quick):
         yield c, threshold_history(rng, *c)
 
 
+def pattern_histories():
+    """small fixed histories around one flush interval: the same key inserted several times
+    before a read, with the last row equal to an earlier pending one (A, B, A), singly, in one
+    batch and mixed; on one- and two-column keys of each kind, and on an unindexed table"""
+    A, B, C = [2, 5, "p"], [2, 6, "q"], [3, 7, "r"]
+    A2, B2 = [2, 5, "q"], [2, 6, "q"]
+    base = [[1, 4, "o"], [2, 9, "z"], [4, 4, "o"]]
+    cols = ["a", "b", "c"]
+    reads = [("read", "b"), ("select",), ("count",), ("read", "c")]
+    for ks in (["a"], ["c"], ["a", "c"], None):
+        pre = [("index", ks)] if ks else []
+        a, b = (A2, B2) if ks and "c" in ks else (A, B)
+        if ks == ["c"]:
+            rows = [[1, 4, "o"], [2, 9, "q"], [4, 4, "x"]]
+        else:
+            rows = base
+        post = [("rindex",), ("select",)] if ks else []
+        yield cols, rows, pre + [("insert", a), ("insert", b), ("insert", a)] + reads[:2] + post
+        yield cols, rows, pre + [("insertb", [a, b, a])] + reads[1:3] + post
+        yield cols, rows, pre + [("insert", a), ("insertb", [b, C, a])] + reads[2:] + post
+        yield cols, rows, pre + [("insertb", [a, b]), ("insert", a), ("insert", b), ("insert", a)] + reads[:1] + post
+        yield cols, rows, pre + [("insert", a), ("insert", b), ("count",), ("insert", a)] + reads[:2] + post
+        yield cols, rows, pre + [("insert", list(rows[1])), ("insert", b), ("insert", list(rows[1]))] + reads[1:3] + post
+
+
 def enumerated_histories(maxlen):
     """every history of length <= maxlen over a small alphabet on one fixed table: all
     interleavings of single inserts (new key, the same new key again, an existing key),
@@ -771,6 +802,10 @@ def run(ctx):
             ctx.bump("types:" + "+".join(sorted(set(types))))
             if ok and s < 4:
                 ctx.sample(dict(kind="table", cols=cols, rows=rows, ops=[list(o) for o in ops][:8]))
+        for n, (cols, rows, ops) in enumerate(pattern_histories()):
+            run_history(ctx, klong, drv, cols, rows, ops, "pattern", early_db=False)
+            ctx.count(("pattern", n))
+            ctx.bump("pattern")
         for combo, (cols, rows, ops) in threshold_histories(ctx.rng, quick):
             run_history(ctx, klong, drv, cols, rows, ops, "threshold", early_db=ctx.rng.random() < 0.3,
                         dbname=ctx.rng.choice(DBNAMES))
